@@ -12,6 +12,7 @@ import (
 type Scenario struct {
 	Name      string
 	Cfg       Config
+	Src       Src // filled in by Check from the repository under test
 	Calls     []Option // start options, started in this order
 	Env       []Option // one-shot environment items
 	Early     bool     // notifications / acks / cancels may precede the start of their call
@@ -81,7 +82,7 @@ func (sc *Scenario) Run(ch Chooser) *Sim { return sc.RunW(ch, 0) }
 
 // RunW is Run with an explicit watchdog limit.
 func (sc *Scenario) RunW(ch Chooser, watchdog time.Duration) *Sim {
-	s := New(sc.Cfg)
+	s := New(sc.Cfg, sc.Src)
 	s.Watchdog = watchdog
 	defer s.Release()
 	used := make([]bool, len(sc.Env))
